@@ -410,10 +410,10 @@ def scenario2(draw, tier):
 def kinds(tier):
     return [
         Kind("crash-enumeration", run, strategy=scenario(tier),
-             examples={"quick": 24, "thorough": 400},
+             examples={"quick": 24, "thorough": 250},
              shrink_s={"quick": 60, "thorough": 600}),
         Kind("resumed-groups-hints-obsolete-dir", run,
              strategy=scenario2(tier),
-             examples={"quick": 16, "thorough": 150},
+             examples={"quick": 16, "thorough": 100},
              shrink_s={"quick": 60, "thorough": 600}),
     ]
